@@ -76,23 +76,23 @@ fn evaluate_operator(
     }
     let result = match *op {
         ir::IntrinsicOp::PrefixIncrement => match arg_values[0] {
-            ir::Constant::Int32(input) => ir::Constant::Int32(input + 1),
-            ir::Constant::UInt32(input) => ir::Constant::UInt32(input + 1),
+            ir::Constant::Int32(input) => ir::Constant::Int32(input.wrapping_add(1)),
+            ir::Constant::UInt32(input) => ir::Constant::UInt32(input.wrapping_add(1)),
             _ => return Err(()),
         },
         ir::IntrinsicOp::PrefixDecrement => match arg_values[0] {
-            ir::Constant::Int32(input) => ir::Constant::Int32(input - 1),
-            ir::Constant::UInt32(input) => ir::Constant::UInt32(input - 1),
+            ir::Constant::Int32(input) => ir::Constant::Int32(input.wrapping_sub(1)),
+            ir::Constant::UInt32(input) => ir::Constant::UInt32(input.wrapping_sub(1)),
             _ => return Err(()),
         },
         ir::IntrinsicOp::PostfixIncrement => match arg_values[0] {
-            ir::Constant::Int32(input) => ir::Constant::Int32(input + 1),
-            ir::Constant::UInt32(input) => ir::Constant::UInt32(input + 1),
+            ir::Constant::Int32(input) => ir::Constant::Int32(input.wrapping_add(1)),
+            ir::Constant::UInt32(input) => ir::Constant::UInt32(input.wrapping_add(1)),
             _ => return Err(()),
         },
         ir::IntrinsicOp::PostfixDecrement => match arg_values[0] {
-            ir::Constant::Int32(input) => ir::Constant::Int32(input - 1),
-            ir::Constant::UInt32(input) => ir::Constant::UInt32(input - 1),
+            ir::Constant::Int32(input) => ir::Constant::Int32(input.wrapping_sub(1)),
+            ir::Constant::UInt32(input) => ir::Constant::UInt32(input.wrapping_sub(1)),
             _ => return Err(()),
         },
         ir::IntrinsicOp::Plus => match arg_values[0] {
@@ -102,8 +102,11 @@ fn evaluate_operator(
             ref value => value.clone(),
         },
         ir::IntrinsicOp::Minus => match arg_values[0] {
-            ir::Constant::Int32(input) => ir::Constant::Int32(-input),
-            ir::Constant::IntLiteral(input) => ir::Constant::IntLiteral(-input),
+            ir::Constant::Int32(input) => ir::Constant::Int32(input.wrapping_neg()),
+            ir::Constant::IntLiteral(input) => match input.checked_neg() {
+                Some(v) => ir::Constant::IntLiteral(v),
+                None => return Err(()),
+            },
             ir::Constant::Float16(input) => ir::Constant::Float16(-input),
             ir::Constant::FloatLiteral(input) => ir::Constant::FloatLiteral(-input),
             ir::Constant::Float32(input) => ir::Constant::Float32(-input),
@@ -123,32 +126,50 @@ fn evaluate_operator(
             _ => panic!("unexpected type in BitwiseNot"),
         },
         ir::IntrinsicOp::Add => match (&arg_values[0], &arg_values[1]) {
+            // Literals are exact - 32-bit integers wrap like they do at runtime
             (ir::Constant::IntLiteral(lhs), ir::Constant::IntLiteral(rhs)) => {
-                ir::Constant::IntLiteral(lhs + rhs)
+                match lhs.checked_add(*rhs) {
+                    Some(v) => ir::Constant::IntLiteral(v),
+                    None => return Err(()),
+                }
             }
-            (ir::Constant::Int32(lhs), ir::Constant::Int32(rhs)) => ir::Constant::Int32(lhs + rhs),
+            (ir::Constant::Int32(lhs), ir::Constant::Int32(rhs)) => {
+                ir::Constant::Int32(lhs.wrapping_add(*rhs))
+            }
             (ir::Constant::UInt32(lhs), ir::Constant::UInt32(rhs)) => {
-                ir::Constant::UInt32(lhs + rhs)
+                ir::Constant::UInt32(lhs.wrapping_add(*rhs))
             }
             _ => return Err(()),
         },
         ir::IntrinsicOp::Subtract => match (&arg_values[0], &arg_values[1]) {
+            // Literals are exact - 32-bit integers wrap like they do at runtime
             (ir::Constant::IntLiteral(lhs), ir::Constant::IntLiteral(rhs)) => {
-                ir::Constant::IntLiteral(lhs - rhs)
+                match lhs.checked_sub(*rhs) {
+                    Some(v) => ir::Constant::IntLiteral(v),
+                    None => return Err(()),
+                }
             }
-            (ir::Constant::Int32(lhs), ir::Constant::Int32(rhs)) => ir::Constant::Int32(lhs - rhs),
+            (ir::Constant::Int32(lhs), ir::Constant::Int32(rhs)) => {
+                ir::Constant::Int32(lhs.wrapping_sub(*rhs))
+            }
             (ir::Constant::UInt32(lhs), ir::Constant::UInt32(rhs)) => {
-                ir::Constant::UInt32(lhs - rhs)
+                ir::Constant::UInt32(lhs.wrapping_sub(*rhs))
             }
             _ => return Err(()),
         },
         ir::IntrinsicOp::Multiply => match (&arg_values[0], &arg_values[1]) {
+            // Literals are exact - 32-bit integers wrap like they do at runtime
             (ir::Constant::IntLiteral(lhs), ir::Constant::IntLiteral(rhs)) => {
-                ir::Constant::IntLiteral(lhs * rhs)
+                match lhs.checked_mul(*rhs) {
+                    Some(v) => ir::Constant::IntLiteral(v),
+                    None => return Err(()),
+                }
             }
-            (ir::Constant::Int32(lhs), ir::Constant::Int32(rhs)) => ir::Constant::Int32(lhs * rhs),
+            (ir::Constant::Int32(lhs), ir::Constant::Int32(rhs)) => {
+                ir::Constant::Int32(lhs.wrapping_mul(*rhs))
+            }
             (ir::Constant::UInt32(lhs), ir::Constant::UInt32(rhs)) => {
-                ir::Constant::UInt32(lhs * rhs)
+                ir::Constant::UInt32(lhs.wrapping_mul(*rhs))
             }
             _ => return Err(()),
         },
@@ -178,13 +199,13 @@ fn evaluate_operator(
                 if *rhs == 0 {
                     return Err(());
                 }
-                ir::Constant::IntLiteral(lhs % rhs)
+                ir::Constant::IntLiteral(lhs.wrapping_rem(*rhs))
             }
             (ir::Constant::Int32(lhs), ir::Constant::Int32(rhs)) => {
                 if *rhs == 0 {
                     return Err(());
                 }
-                ir::Constant::Int32(lhs % rhs)
+                ir::Constant::Int32(lhs.wrapping_rem(*rhs))
             }
             (ir::Constant::UInt32(lhs), ir::Constant::UInt32(rhs)) => {
                 if *rhs == 0 {
@@ -196,21 +217,38 @@ fn evaluate_operator(
         },
         ir::IntrinsicOp::LeftShift => match (&arg_values[0], &arg_values[1]) {
             (ir::Constant::IntLiteral(lhs), ir::Constant::IntLiteral(rhs)) => {
-                ir::Constant::IntLiteral(lhs << rhs)
+                // The result must be exact - so no bits may be shifted out
+                let shifted = match u32::try_from(*rhs) {
+                    Ok(count) if count < i128::BITS => lhs << count,
+                    _ => return Err(()),
+                };
+                if shifted >> rhs != *lhs {
+                    return Err(());
+                }
+                ir::Constant::IntLiteral(shifted)
             }
-            (ir::Constant::Int32(lhs), ir::Constant::Int32(rhs)) => ir::Constant::Int32(lhs << rhs),
+            // The shift count of a 32-bit integer only uses the low 5 bits
+            (ir::Constant::Int32(lhs), ir::Constant::Int32(rhs)) => {
+                ir::Constant::Int32(lhs.wrapping_shl(*rhs as u32))
+            }
             (ir::Constant::UInt32(lhs), ir::Constant::UInt32(rhs)) => {
-                ir::Constant::UInt32(lhs << rhs)
+                ir::Constant::UInt32(lhs.wrapping_shl(*rhs))
             }
             _ => return Err(()),
         },
         ir::IntrinsicOp::RightShift => match (&arg_values[0], &arg_values[1]) {
             (ir::Constant::IntLiteral(lhs), ir::Constant::IntLiteral(rhs)) => {
-                ir::Constant::IntLiteral(lhs >> rhs)
+                match u32::try_from(*rhs) {
+                    Ok(count) if count < i128::BITS => ir::Constant::IntLiteral(lhs >> count),
+                    _ => return Err(()),
+                }
             }
-            (ir::Constant::Int32(lhs), ir::Constant::Int32(rhs)) => ir::Constant::Int32(lhs >> rhs),
+            // The shift count of a 32-bit integer only uses the low 5 bits
+            (ir::Constant::Int32(lhs), ir::Constant::Int32(rhs)) => {
+                ir::Constant::Int32(lhs.wrapping_shr(*rhs as u32))
+            }
             (ir::Constant::UInt32(lhs), ir::Constant::UInt32(rhs)) => {
-                ir::Constant::UInt32(lhs >> rhs)
+                ir::Constant::UInt32(lhs.wrapping_shr(*rhs))
             }
             _ => return Err(()),
         },
